@@ -236,6 +236,14 @@ func (t *tr) lenTest(x *ast.BinaryExpr) (string, bool) {
 	if op == token.LSS {
 		l, r, op = r, l, token.GTR
 	}
+	// x != "" (either side) is the same test as len(x) > 0
+	if op == token.NEQ {
+		for _, p := range [][2]ast.Expr{{l, r}, {r, l}} {
+			if tv, ok := info.Types[p[1]]; ok && tv.Value != nil && tv.Value.ExactString() == `""` && kindOf(p[0]) == "bytes" {
+				return "(str_nonempty " + t.expr(p[0]) + ")", true
+			}
+		}
+	}
 	c, ok := l.(*ast.CallExpr)
 	if !ok || len(c.Args) != 1 || (op != token.GTR && op != token.NEQ) {
 		return "", false
